@@ -153,3 +153,12 @@ Ltac slift_core core Hlo Hhi H :=
   destruct Hlo as [->|[a [[->| ->] La]]]; destruct Hhi as [->|[b [[->| ->] Lb]]];
   unwrap_arrays H;
   (eapply core; [| |exact H]; first [left; reflexivity | right; eexists; split; [reflexivity|eassumption]]).
+
+Ltac stotal_case H :=
+  spy_eval H; try discriminate H;
+  try (exfalso; match goal with E : ssort ?vs = [] |- _ =>
+         apply ssort_nil in E; subst; cbn [List.length Z.of_nat] in *; congruence end).
+Ltac ssplit_res :=
+  match goal with |- exists b, ?t = Ok b =>
+    let r := fresh "r" in let e := fresh "e" in let H := fresh "H" in
+    destruct t as [r|e] eqn:H; [exists r; reflexivity|exfalso; stotal_case H] end.
